@@ -38,4 +38,62 @@ CLAIMS = {
                 note="Trusted: TLC, go1.26.8, the textual rewrite of three call targets inside dial(); real sockets/sysctls are not exercised"),
 }
 
+_vec_note = ("Trusted: TLC, the Go toolchain, the harness seam named in the evidence assumptions; the requirement operator is "
+             "evaluated by TLC on every recorded observation; exhaustive only within the enumerated domain")
+_tv = "TLA+ requirement specification + TLC-enumerated / generated inputs run on the real code + TLC validation of every observation"
+
+CLAIMS.update({
+    "C01": dict(engine="config-ra", design_ref="4 C01", technique=_tv,
+                text="RA!BuildRA(elaborated interface, system state) is the requirement; documents covering every stanza kind (0..n, static, wildcard, deprecated, pref64, names groups) x system states are parsed by the real code, each interface prepared with its own hardware address, its RA built five times and compared by TLC with BuildRA; idempotence and configuration immutability are observed directly.",
+                note=_vec_note),
+    "C02": dict(engine="config-ra", design_ref="4 C02; appendix D", technique=_tv,
+                text="Config!Accept / Config!Elab formalise the statement's constraint table; boundary documents for every key (limit-1, limit, limit+1, omitted, auto, infinite, negative, sub-second, > 2^32-1 s, malformed) with interaction products, random structured documents and raw / mutated bytes go through the real Parse; TLC decides accepted = Accept(doc) and elaboration = Elab(doc) for each.",
+                note=_vec_note),
+    "C03": dict(engine="config-ra", design_ref="4 C03", technique=_tv,
+                text="For every document the real parser accepts (C01 set plus the whole C02 boundary stream), each RA is encoded and decoded with the ndp codec; TLC checks RA!Encodable and decoded = RA!OnWire(ra) (truncation to each field's unit). The byte codec is exercised, not modelled; the specification decides the gate between validator ranges and field widths.",
+                note=_vec_note),
+    "C04": dict(engine="advertiser", design_ref="4 C04", technique="TLA+ model checking (TLC) + replay under synctest + TLC trace validation",
+                text="Model: every interleaving of forwarding flips with RA generations on the worker, consistency-check, final, scrape and API paths (the forwarding read is its own step). Real code: TLC-enumerated flip/generate histories incl. flips while the forwarding read is held at a gate, two interfaces sharing Metrics and the API handler; AdvReq requires every transmitted / hooked lifetime to be explained by its own fresh forwarding read, gauges and API lifetime to equal the read, one log line per overridden generation.",
+                note=_adv_note),
+    "C05": dict(engine="advertiser", design_ref="4 C05", technique="TLA+ (TLC over the accepted min/max grid) + scripted-draw vectors + quiet virtual-time runs validated by TLC",
+                text="MDelayMC: TLC checks the transcription of multicastDelay against Waits!AllowedWait for every whole-second max (4..1800 s in the thorough tier) x every accepted min x index x extreme draws, and boundary minimums with sub-second parts; vectors run through the real function with a scripted random source; quiet synctest runs of the real advertiser over >= 9 periods are judged by AdvReq (each gap an allowed wait; never overdue).",
+                note=_adv_note),
+    "C12": dict(engine="verify", design_ref="4 C12", technique=_tv,
+                text="Verify!Problems is the requirement bag; per-aspect exhaustive {absent, v1, v2,...}^2 crosses, pairwise products, random RAs and self round trips go through verifyRAs and Advertiser.handle (distinct structs and after the wire); TLC compares problems, counters, log lines and hook firing with the bag.",
+                note=_vec_note),
+    "C13": dict(engine="wildcards", design_ref="4 C13", technique="TLA+ model checking (Impl = Req over all listings) + vectors + TLC validation",
+                text="WildcardsMC: TLC checks that the transcribed loop equals the set-theoretic requirement for every listing (sequence with repetition) of <= 3 (4) pool entries; the same listings and random longer ones run through the real Prefix plugin; TLC validates each result against Wildcards!ReqPrefixes.",
+                note=_vec_note),
+    "C14": dict(engine="wildcards", design_ref="4 C14", technique="TLA+ model checking (Impl = Req, order axioms) + vectors + TLC validation",
+                text="TLC checks that folding the transcribed betterRDNSS over any listing yields the minimum of the documented ranking and that the ranking is a strict total order on the pool; listings x static server lists run through the real RDNSS plugin and are validated against Wildcards!ReqServers.",
+                note=_vec_note),
+    "C15": dict(engine="wildcards", design_ref="4 C15", technique="TLA+ model checking (Impl = Req) + vectors + TLC validation",
+                text="TLC checks the transcribed route loop against the requirement (maximal, non-overlapping, sorted, duplicate-free) over every listing of <= 3 (4) entries of a nested-prefix pool; the listings and random dumps run through the real Route plugin and are validated against Wildcards!ReqRoutes.",
+                note=_vec_note),
+    "C16": dict(engine="wildcards", design_ref="4 C16", technique="TLA+ model checking (lemmas over all reading sequences) + vectors + TLC validation",
+                text="DeprecationMC: TLC checks monotonicity, non-negativity, zero-from-deadline and preferred <= valid for every non-decreasing sequence of <= 3 (4) clock readings around the deadlines; each sequence is replayed on one plugin instance at 1 s and 1 ns units and validated against Deprecation!ReqLifetimes.",
+                note=_vec_note),
+    "C17": dict(engine="observe", design_ref="4 C17", technique=_tv,
+                text="ObsTrace: for documents x system states x lifecycle {never prepared, up} x state-read failure, a Prometheus collection and the HTTP routes are exercised on the wiring of cmd/corerad (pedantic registry, shared plugin pointers); TLC compares samples with the projection of RA!BuildRA(Config!Elab(doc)), the API JSON with its whole-second view, and route gating; a process crash is a violation.",
+                note=_vec_note + "; one known finding (duplicate label sets) is listed in known_findings.json"),
+    "C18": dict(engine="monitor", design_ref="4 C18", technique="TLA+ requirement monitor + message sequences on the real Monitor + TLC validation of the whole store after every message",
+                text="MonReq gives the expected metric store after each message; every ordered pair from a message pool (zones, zero/infinite lifetimes, repeats at four gaps) and random sequences are delivered to the real Monitor in virtual time; TLC compares the whole observed store with the expected one at every quiescent point.",
+                note=_vec_note),
+    "C19": dict(engine="watcher", design_ref="4 C19", technique="TLA+ model checking (WatchMC) + script replay with state comparison + TLC validation",
+                text="WatchMC explores every Subscribe/notify/drain/end sequence to depth 4 (5) and all 127 masks x 7 changes; scripts are replayed on the real Watcher comparing the buffered count of every subscriber after every call and each drained sequence and closed-ness; overflow chains around the 8-slot buffer; concurrent runs judged for ordered selection and closure.",
+                note=_vec_note),
+    "C20": dict(engine="server", design_ref="4 C20", technique="TLA+ model checking (Server.tla with ServReq) + script replay on the real Serve + TLC validation",
+                text="Server.tla explores every interleaving of 2 (3) stub tasks x behaviours x signal kinds composed with ServReq; quiescent histories are replayed on the real Serve with the real signal task, terminator and a unix-datagram notify socket; BuildTasks over all mixes of <= 3 interfaces; the HTTP retry loop under virtual time.",
+                note=_vec_note),
+})
+ENGINES += [
+    {"name": "config-ra", "path": "spec/Config.tla spec/RA.tla spec/Durations.tla spec/ConfigTrace.tla spec/RATrace.tla harness/config lib/cfgdoc.py lib/checks_cfg.py", "serves_properties": ["C01", "C02", "C03"], "kind_free_text": "requirement operators evaluated by TLC on documents parsed / RAs built by the real code"},
+    {"name": "wildcards", "path": "spec/Wildcards.tla spec/WildcardsMC.tla spec/Deprecation.tla spec/DeprecationMC.tla spec/VecTrace.tla harness/plugin lib/checks_vec.py", "serves_properties": ["C13", "C14", "C15", "C16"], "kind_free_text": "Impl = Req model checking over bounded listings; vectors validated by TLC"},
+    {"name": "verify", "path": "spec/Verify.tla spec/VerifyTrace.tla harness/corerad/vf_verify.go", "serves_properties": ["C12"], "kind_free_text": "requirement bag evaluated by TLC"},
+    {"name": "monitor", "path": "spec/MonReq.tla spec/MonTrace.tla lib/checks_mon.py", "serves_properties": ["C18"], "kind_free_text": "store monitor"},
+    {"name": "watcher", "path": "spec/WatchReq.tla spec/WatchMC.tla spec/WatchTrace.tla harness/netstate lib/checks_misc.py", "serves_properties": ["C19"], "kind_free_text": "model checking + state-comparing replay"},
+    {"name": "server", "path": "spec/Server.tla spec/ServReq.tla spec/ServTrace.tla harness/corerad/vf_server.go lib/checks_misc.py", "serves_properties": ["C20"], "kind_free_text": "model checking + replay"},
+    {"name": "observe", "path": "spec/ObsTrace.tla harness/corerad/vf_observe.go lib/checks_cfg.py", "serves_properties": ["C17"], "kind_free_text": "projection of BuildRA compared with gathered samples / API JSON"},
+]
+
 NOT_YET = {}
